@@ -14,8 +14,10 @@ Unit syntax: ordinary Verus text, copied verbatim, interleaved with directives:
      //@noauto                    do not apply the automatic rules (R2, R3)
      //@sigonly                   emit only the signature + spec, terminated by ';' (trait methods)
      //@external_body             emit `#[verifier::external_body]` before the item (body kept, not verified)
+     //@hoist <kind>:<name>       R14: remove a nested item from the body (extract it separately)
      //@spec                      following lines go between signature and body
      //@loop <n>                  following lines go before the '{' of the n-th loop (source order, 1-based)
+     //@afterloop <n>             following lines go right after the closing '}' of the n-th loop
      //@before <n> "<substr>"     following lines go before the line containing the n-th occurrence of substr
      //@after  <n> "<substr>"     ... after the *statement line* containing it
   //@end
@@ -206,7 +208,7 @@ def weave(unit_path, repo, verif_root):
             relfile, selector = relfile.strip(), selector.strip()
             i += 1
             opts = {"as": None, "ret": None, "pub": False, "attrs": False, "subs": [], "noauto": False,
-                    "sigonly": False, "external_body": False, "spec": [], "loops": {}, "anchors": []}
+                    "sigonly": False, "external_body": False, "spec": [], "loops": {}, "afterloops": {}, "anchors": [], "hoist": []}
             while i < len(lines):
                 t = lines[i].strip()
                 if t == "//@end":
@@ -233,6 +235,8 @@ def weave(unit_path, repo, verif_root):
                     opts["sigonly"] = True
                 elif d == "external_body":
                     opts["external_body"] = True
+                elif d.startswith("hoist "):
+                    opts["hoist"].append(d[6:].strip())
                 elif d.startswith("sub ") or d.startswith("resub "):
                     mt = re.match(r'(re)?sub\s+(\S+)\s+(\d+)\s+(".*?"|/.*?/)\s+=>\s+"(.*)"\s*$', d)
                     if not mt:
@@ -247,6 +251,9 @@ def weave(unit_path, repo, verif_root):
                 elif d.startswith("loop "):
                     blk, i = _read_block(lines, i)
                     opts["loops"][int(d[5:].strip())] = blk
+                elif d.startswith("afterloop "):
+                    blk, i = _read_block(lines, i)
+                    opts["afterloops"][int(d[10:].strip())] = blk
                 elif d.startswith("before ") or d.startswith("after "):
                     mt = re.match(r'(before|after)\s+(\d+)\s+"(.*)"\s*$', d)
                     if not mt:
@@ -292,7 +299,19 @@ def _do_extract(repo, relfile, selector, opts, sources, log, extracted):
            "line_end": src.line_of(e), "sha256": sha, "external_body": opts["external_body"]}
     extracted.append(rec)
     original = text
-    # literal / regex substitutions
+    # R14: nested items hoisted out (they are extracted separately)
+    for h in opts["hoist"]:
+        kind, _, hname = h.partition(":")
+        from rustscan import find_items, _attr_start
+        mt_ = mask(text)
+        b0 = mt_.find("{")
+        cands = [c for c in find_items(text, mt_, kind, hname, b0 + 1, len(text) - 1)]
+        if len(cands) != 1:
+            raise LostAnchor("%s %s: hoist %s matched %d nested items" % (where, name, h, len(cands)))
+        hs, he = cands[0]
+        hs = _attr_start(text, mt_, hs, b0 + 1)
+        log.append({"rule": "R14", "where": where, "fn": name, "before": text[hs:he], "after": "(nested item hoisted to top level, extracted separately)"})
+        text = text[:hs] + text[he:]
     for is_re, rule, count, frm, to in opts["subs"]:
         if is_re:
             found = len(re.findall(frm, text))
@@ -342,8 +361,12 @@ def _do_extract(repo, relfile, selector, opts, sources, log, extracted):
     # insertion points into body
     inserts = []  # (pos, text, part)
     mb = mask(body)
-    if opts["loops"]:
+    if opts["loops"] or opts["afterloops"]:
         loops = find_loops(body, mb)
+        for n, blk in opts["afterloops"].items():
+            if n < 1 or n > len(loops):
+                raise LostAnchor("%s %s: loop %d not found (%d loops)" % (where, name, n, len(loops)))
+            inserts.append((match_close(mb, loops[n - 1][1]) + 1, "\n" + "\n".join(blk) + "\n", "afterloop%d" % n))
         for n, blk in opts["loops"].items():
             if n < 1 or n > len(loops):
                 raise LostAnchor("%s %s: loop %d not found (%d loops)" % (where, name, n, len(loops)))
